@@ -9,7 +9,7 @@ documented decisions (opentype/gtab/testcases sections 1-3); it returns `.error 
 where those do not determine the outcome (`Spec.Shape.Defined` is "returns `.ok`").
 `Shape.apply B ll gd lookups [] seq` (Model/ShapeEngine.lean) is the model of the Go engine
 (`gtab.Context.Apply` on a fresh context) as repaired for DESIGN §9 #11 #12 #13 #14 #15 #33 #32,
-C06-ch3, C06-ch3skip and C06-attach; it is tied to the Go code by the correspondence stream of C07, and the
+C06-ch3, C06-ch3skip, C06-attach and C06-base; it is tied to the Go code by the correspondence stream of C07, and the
 Go code is compared with the reference directly by the stream `shapespec.apply` of this property.
 
 The first group of theorems states, clause by clause, what the REFERENCE does (they make the
@@ -237,7 +237,7 @@ example : Shape.apply 64
   C06_engine_eq_spec 64 _ _ _ _ _ (by rfl)
 
 /-- mark-to-base: base 1 (advance 500, anchor (300, 700)), mark 10 (anchor (20, 10)) -/
-example : Spec.Shape.shape 64 [⟨0, 0, [.gpos41 [(10, 0)] [(1, 0)] [⟨0, 20, 10⟩] [[⟨300, 700⟩]]]⟩] exGdef [0]
+example : Spec.Shape.shape 64 [⟨0, 0, [.gpos41 [(10, 0)] [(1, 0)] [⟨0, 20, 10⟩] [[⟨300, 700⟩]] exGdef.glyphClass]⟩] exGdef [0]
     [⟨1, [97], 0, 0, 500⟩, ⟨10, [98], 0, 0, 0⟩]
     = .ok [⟨1, [97], 0, 0, 500⟩, ⟨10, [98], -220, 690, 0⟩] := by rfl
 
